@@ -619,17 +619,18 @@ CO_ERR COSdoEndDownloadBlock(CO_SDO *srv)
         if (result != CO_ERR_NONE) {
             srv->Node->Error = CO_ERR_SDO_WRITE;
             COSdoAbort(srv, CO_SDO_ERR_TOS);
+            result = CO_ERR_SDO_ABORT;
+        } else {
+            CO_SET_BYTE(srv->Frm, 0xA1, 0);
+            CO_SET_WORD(srv->Frm, 0, 1);
+            CO_SET_BYTE(srv->Frm, 0, 3);
+            CO_SET_LONG(srv->Frm, 0, 4);
         }
-        CO_SET_BYTE(srv->Frm, 0xA1, 0);
-        CO_SET_WORD(srv->Frm, 0, 1);
-        CO_SET_BYTE(srv->Frm, 0, 3);
-        CO_SET_LONG(srv->Frm, 0, 4);
 
         srv->Blk.State = BLK_IDLE;
         srv->Buf.Cur   = srv->Buf.Start;
         srv->Buf.Num   = 0;
         srv->Obj       = 0;
-        result         = CO_ERR_NONE;
     }
     return (result);
 }
